@@ -390,6 +390,97 @@ def check(ctx):
                                   % (ast.unparse(cnt), why), stmt='for _ in range(%s)' % ast.unparse(cnt))
     ctx.floor('C08.R3', 8)
 
+    # ---- R6: the exponent of a power computed while decoding is bounded independently of the input.  `b ** e` builds a number of
+    #      e * log2(b) bits: with e taken from a field whose width the input chooses, a few octets cost unbounded time and memory.
+    ctx.rule('C08.R6', 'exponents of ** in decode-reachable code are bounded by fixed-width fields or configuration')
+
+    def magnitude(e, f, depth=0, seen=()):
+        """True: bounded by a constant whatever the input; False: grows with a width the input chooses; None: not decided"""
+        if depth > 8:
+            return None
+        if isinstance(e, ast.Constant):
+            return True
+        if isinstance(e, ast.Attribute):
+            return True if (isinstance(e.value, ast.Name) and e.value.id == 'self') else None        # configuration
+        if isinstance(e, ast.Subscript):
+            if isinstance(e.slice, ast.Slice):
+                return None
+            if isinstance(e.value, ast.Call) and isinstance(e.value.func, ast.Attribute) and e.value.func.attr in ('unpack', 'unpack_from') \
+                    and e.value.args and isinstance(e.value.args[0], ast.Constant):
+                return True        # a struct field of a literal format
+            return True            # one element of a byte string / list: an octet
+        if isinstance(e, ast.UnaryOp):
+            return magnitude(e.operand, f, depth + 1, seen)
+        if isinstance(e, ast.BinOp):
+            a, b = magnitude(e.left, f, depth + 1, seen), magnitude(e.right, f, depth + 1, seen)
+            if a is False or b is False:
+                return False
+            if isinstance(e.op, ast.Pow):
+                return None if not (a and b) else True
+            return True if (a and b) else None
+        if isinstance(e, ast.IfExp):
+            a, b = magnitude(e.body, f, depth + 1, seen), magnitude(e.orelse, f, depth + 1, seen)
+            return False if (a is False or b is False) else (True if (a and b) else None)
+        if isinstance(e, ast.Name):
+            if e.id in seen:
+                return True
+            binds = []
+            for a in walk_no_nested(f):
+                if isinstance(a, ast.Assign) and e.id in [x for t in a.targets for x in flow.target_names(t)]:
+                    binds.append(a.value if not isinstance(a.targets[0], (ast.Tuple, ast.List)) else None)
+                elif isinstance(a, ast.AugAssign) and isinstance(a.target, ast.Name) and a.target.id == e.id:
+                    binds.append(a.value)
+                elif isinstance(a, (ast.For, ast.comprehension)) and e.id in flow.target_names(a.target):
+                    binds.append(None)
+            if not binds:
+                return None          # a parameter: not followed
+            res = [magnitude(b, f, depth + 1, seen + (e.id,)) if b is not None else None for b in binds]
+            if any(r is False for r in res):
+                return False
+            return True if all(res) else None
+        if isinstance(e, ast.Call):
+            fn = ast.unparse(e.func)
+            def fixed_slice(x):
+                return isinstance(x, ast.Subscript) and isinstance(x.slice, ast.Slice) and all(
+                    b is None or magnitude(b, f, depth + 1, seen) is True and not any(isinstance(y, ast.Call) for y in ast.walk(b)) for b in (x.slice.lower, x.slice.upper)) \
+                    and x.slice.upper is not None
+            def var_slice(x):
+                return isinstance(x, ast.Subscript) and isinstance(x.slice, ast.Slice)
+            if fn == 'int.from_bytes' and e.args:
+                if fixed_slice(e.args[0]) and all(isinstance(b, ast.Constant) or b is None for b in (e.args[0].slice.lower, e.args[0].slice.upper)):
+                    return True
+                return False if var_slice(e.args[0]) or isinstance(e.args[0], ast.Name) else None
+            if fn == 'int' and e.args and isinstance(e.args[0], ast.Call) and ast.unparse(e.args[0].func).endswith('hexlify') and e.args[0].args:
+                x = e.args[0].args[0]
+                if isinstance(x, ast.Subscript) and isinstance(x.slice, ast.Slice) and all(isinstance(b, ast.Constant) for b in (x.slice.lower, x.slice.upper) if b is not None) and x.slice.upper is not None:
+                    return True
+                return False
+            if fn == 'len':
+                return False
+            if isinstance(e.func, ast.Attribute) and e.func.attr.startswith('read_'):
+                kind, _why = count_origin(e, f, model.mod('asn1tools/codecs/per.py').classes['Decoder'], cg=cg)
+                return True if kind in ('CONFIG', 'BOUNDED') else (False if kind == 'UNBOUNDED' else None)
+            if fn in ('abs', 'int', 'min') and e.args:
+                return magnitude(e.args[0], f, depth + 1, seen)
+            return None
+        return None
+    n6 = 0
+    for f in sorted(reach, key=lambda g: (g._mod.rel, g.lineno)):
+        if not f._mod.rel.startswith('asn1tools/codecs/'):
+            continue
+        for n in walk_no_nested(f):
+            if isinstance(n, ast.BinOp) and isinstance(n.op, ast.Pow) and not isinstance(n.right, ast.Constant):
+                n6 += 1
+                mg = magnitude(n.right, f)
+                ctx.instance('C08.R6', '%s: %s' % (Model.qual(f), ast.unparse(n)[:60]), 'bounded exponent' if mg else ('undecided' if mg is None else 'VIOLATION'),
+                             nontrivial=mg is not None, node=n, file=f._mod.rel)
+                if mg is False:
+                    ctx.violation('C08.R6', f._mod.rel, n, Model.qual(f),
+                                  'the exponent of %s is read from a field whose width the input chooses: a message of a few octets makes the decoder build a number of that many '
+                                  'bits (time and memory exponential in the length of the input)' % ast.unparse(n), stmt=norm_stmt(Model.enclosing_stmt(n)))
+    if n6 == 0:
+        ctx.instance('C08.R6', 'no ** with a computed exponent in decode-reachable code', 'ok', nontrivial=False)
+
     # ---- R4 purity of decode-reachable methods
     eff = effects.Purity(model, cg)
     nchk = 0
@@ -552,3 +643,13 @@ REFACTORS = [
          new="""    data_length = len(encoded)
     if offset + length > len(encoded):"""),
 ]
+
+MUTANTS.append(dict(name='binary REAL exponent read with a length taken from the input', file='asn1tools/codecs/ber.py',
+                    old="""    elif control in [0x81, 0xc1]:
+        exponent = ((data[1] << 8) | data[2])
+""", new="""    elif control in [0x83, 0xc3]:
+        offset = 2 + data[1]
+        exponent = int.from_bytes(data[2:offset], byteorder='big', signed=True)
+    elif control in [0x81, 0xc1]:
+        exponent = ((data[1] << 8) | data[2])
+""", expect='C08.R6'))
